@@ -13,9 +13,12 @@ From NV Require Import Base.U64 Gen.FSTreeConsts FSTree.Wire.
 Inductive rres := RsOk (off ln : N) | RsOOR | RsBad.
 
 (* all arithmetic as Go does it on uint64 *)
+(* the common tail: ln != 0 && (off >= payloadLen || payloadLen-off < ln) *)
+Definition check_range (len off ln : N) : rres :=
+  if (negb (ln =? 0) && ((len <=? off) || (sub64 len off <? ln)))%N%bool then RsOOR else RsOk off ln.
+
 Definition resolve (mode a b len : N) : rres :=
-  let check off ln :=
-    if (negb (ln =? 0) && ((len <=? off) || (sub64 len off <? ln)))%N%bool then RsOOR else RsOk off ln in
+  let check := check_range len in
   if (mode =? mode_none)%N then check 0%N len
   else if (mode =? mode_offlen)%N then
     if (b =? 0)%N then (if (a =? 0)%N then check 0%N len else RsOOR)
